@@ -9,6 +9,8 @@ from rules.gdsrules import get_flow
 
 def run(ctx):
     F = ctx.F
+    from rules import deadrules as _dr
+    _dr.rule_parsed_fields_used(ctx, "R06.10", ("layout21raw::gds::",), 10)
     fl = get_flow(F)
     ctx.rule("R06.1", "GDSII -> raw correspondence: points x<-x/y<-y, box corners <- xy[0]/xy[2], layer/purpose <- layer/datatype, path points/width, instance cell/loc/reflection/angle, array lattice <- xy[0..3]/cols/rows, labels -> net or annotation")
     rg.run_tables(ctx, "R06.1e", "R06.1", do_export=False)
